@@ -15,6 +15,8 @@ from nutree import Tree
 
 ID = "C14"
 LEVEL = "exploration"
+TECHNIQUE = 'property-based testing: mirror oracle built from an independent walk + round trip'
+LEVEL_TEXT = 'exploration: generated string trees (explicit ids incl. 0, clones, emptied trees) and object trees (truthy and falsy objects, in-place and new-dict mappers), optional JSON round trip'
 RULE = (
     "case = (tree spec, flavour in {str without mapper, Person objects keyed by a calc_data_id callback with a pair of "
     "inverse mappers}, json dump/load in between?, emptied-again?). Oracle 1 (mirror): to_dict_list() is compared "
